@@ -247,6 +247,26 @@ def rank_program(ds, torch, S, seed, rank, world):
             if not r <= 1.0:
                 raise Violation(f"step {t + 1}: rank {rank} (shard rank {srank}): the shard of parameter {i} {'elements ' + str(spec[:2]) if spec else ''} differs from the serial optimizer run on that sub-tensor (deviation/tolerance {r:.3g})", step=t + 1, rank=rank, param=i, kind="twin_mismatch", sub_tensor=None if spec is None else {"range_in_shard": list(spec[:2]), "shape": list(spec[2])})
         hist["bitwise_steps" if bit else "tolerance_steps"] += 1
+        # quantisation fingerprint of the communicated quantity (no twin involved): with a 16-bit communication dtype every
+        # rank applies values that went through that dtype - the applied update (updates mode) resp. the new parameter
+        # (parameters mode) must be representable in exactly that dtype, up to the resolution of observing W_new - W_old
+        if mode in ("hsdp", "hybrid") and COMM[S["comm"]] != "float32":
+            cdt = getattr(torch, COMM[S["comm"]])
+            for i, p in enumerate(params):
+                new_ = local(p).detach()
+                if not new_.numel() or not S["presence"][t][i]:
+                    continue
+                hist["fingerprints"] = hist.get("fingerprints", 0) + 1
+                if S["communicate_params"]:
+                    if not beq(new_, new_.to(cdt).to(new_.dtype)):
+                        raise Violation(f"step {t + 1}: rank {rank}: parameter {i} was communicated as {S['comm']} but its new value is not representable in that dtype", step=t + 1, rank=rank, param=i, kind="comm_dtype_fingerprint")
+                else:
+                    delta = new_.double() - olds[i].double()
+                    q = delta.to(cdt).double()
+                    res = 8 * float(torch.finfo(new_.dtype).eps) * (new_.double().abs() + olds[i].double().abs()) + comm_sub
+                    bad = (delta - q).abs() > res
+                    if bool(bad.any()):
+                        raise Violation(f"step {t + 1}: rank {rank}: the update applied to parameter {i} was communicated as {S['comm']} but is not representable in that dtype (|delta - round(delta)| up to {float((delta - q).abs().max()):.3g})", step=t + 1, rank=rank, param=i, kind="comm_dtype_fingerprint")
         # parameters with an empty local shard / absent gradient must not change
         for i, p in enumerate(params):
             if local(p).numel() and (not S["presence"][t][i]) and not beq(local(p).detach(), olds[i]):
@@ -300,6 +320,7 @@ def run_sharded(case, prop_id):
             counters["bitwise_steps"] += results[r]["bitwise_steps"]
             counters["tolerance_steps"] += results[r]["tolerance_steps"]
             counters["shards_compared"] += S["T"] * len(S["shapes"])
+            counters["comm_dtype_fingerprints"] = counters.get("comm_dtype_fingerprints", 0) + results[r].get("fingerprints", 0)
         # replicas: same shard rank, different replicate index -> bit-identical
         if S["R"] >= 2:
             for r in range(W):
